@@ -18,6 +18,8 @@ def run(chk):
     chk.configs = cfgs
     chk.rule("PIP.on-edge", "point-in-polygon routines (PointInPolygon, PointInOpPolygon): every cross product that decides a toggle is kept in a local that is tested for "
              "zero with IsOn returned - a point exactly on an edge is never classified by that edge's direction")
+    chk.rule("SPLIT.recorded", "DoSplitOp / ProcessHorzJoins: on every tree-mode path after NewOutRec() the two halves are tied through a splits list before the "
+             "iteration ends (RecursiveCheckOwners finds the real owner of a ring nested in the split-off half only through it)")
     chk.rule("OWNER.reparent", "SetOwner executed on every ownership forest over four records: outrec ends up under new_owner, the forest stays acyclic, bystanders are "
              "untouched and new_owner keeps its live ancestors (outrec's, when it hung below outrec) - no ring is cut loose to top level")
     chk.rule("OWNER.assigned", "AddLocalMinPoly / AddLocalMaxPoly: whatever GetPrevHotEdge returns, the ring's tentative owner is assigned (SetOwner, or nullptr when there "
@@ -49,6 +51,7 @@ def run(chk):
         e3.pip_on_edge_sites(db, chk, cfg)
         e10.rule_owner_assigned(db, chk, cfg)
         e10.rule_owner_reparent(db, chk, cfg)
+        e10.rule_split_recorded(db, chk, cfg)
         from ..engines import e2_state as _e2, e10_pipeline as _e10
         if _e10.rule_bound_live(db, chk, cfg, lambda cls: _e2.E2(db, chk, cfg, cls)) < 4:
             from ..extract import AnalysisBroken as _AB
